@@ -33,6 +33,13 @@ pub struct RemoteStats {
 
 /// Runs one case to completion against real teosd processes (restarts included).
 pub fn run_case_remote(case: &mut Case, base: &Path, trace: bool) -> RemoteStats {
+    run_case_remote_wrapped(case, base, trace, &[]).0
+}
+
+/// Like `run_case_remote`, with teosd started under `wrapper` (a memory checker); every process is then stopped
+/// gracefully so that the wrapper can print its summary. Returns the concatenated process outputs as well.
+pub fn run_case_remote_wrapped(case: &mut Case, base: &Path, trace: bool, wrapper: &[String]) -> (RemoteStats, String) {
+    let mut outputs = String::new();
     let datadir = base.join(format!("teosd-{}", case.id));
     let _ = std::fs::remove_dir_all(&datadir);
     std::fs::create_dir_all(&datadir).unwrap();
@@ -46,10 +53,10 @@ pub fn run_case_remote(case: &mut Case, base: &Path, trace: bool) -> RemoteStats
     let mut stats = RemoteStats { sessions: 0, graceful_stops: 0, graceful_failed: 0, http_calls: 0, grpc_calls: 0, btc_requests: 0, inconclusive: None, points: Vec::new(), requests: Vec::new() };
     loop {
         let trace_path = datadir.join(format!("trace-{}.log", stats.sessions));
-        let opts = TeosdOpts { trace: if trace { Some(trace_path.clone()) } else { None }, ..Default::default() };
+        let opts = TeosdOpts { trace: if trace { Some(trace_path.clone()) } else { None }, wrapper: wrapper.to_vec(), ..Default::default() };
         let boot_log_start = case.world.log.len();
         case.model.on_restart(boot_log_start);
-        let stop = if case.restarts % 2 == 1 { StopMode::Graceful } else { StopMode::Kill };
+        let stop = if case.restarts % 2 == 1 || !wrapper.is_empty() { StopMode::Graceful } else { StopMode::Kill };
         let graceful = matches!(stop, StopMode::Graceful);
         let mut counters = (0u64, 0u64);
         let cfg = case.cfg.clone();
@@ -71,6 +78,10 @@ pub fn run_case_remote(case: &mut Case, base: &Path, trace: bool) -> RemoteStats
         stats.grpc_calls += counters.1;
         match res {
             Ok(out) => {
+                if !wrapper.is_empty() {
+                    // the output file is appended to across restarts
+                    outputs = out.output.clone();
+                }
                 if out.output.contains("Address already in use") {
                     stats.inconclusive = Some("a listening port of teosd was taken by another process".into());
                     break;
@@ -119,7 +130,7 @@ pub fn run_case_remote(case: &mut Case, base: &Path, trace: bool) -> RemoteStats
     stats.btc_requests = crate::chain::lock(&btc.st.0).requests;
     btc.shutdown();
     let _ = std::fs::remove_dir_all(&datadir);
-    stats
+    (stats, outputs)
 }
 
 fn tail(out: &str) -> String {
@@ -127,14 +138,15 @@ fn tail(out: &str) -> String {
 }
 
 /// Entry point of the `e3` engine. `props` are credited with an evaluation per history.
-pub fn run(seed: u64, shard: u64, nshards: u64, cases: u64, bias: &str, parallel: usize, only_case: Option<u64>, props: &[String], rep: &mut Report) {
+pub fn run(seed: u64, shard: u64, nshards: u64, cases: u64, bias: &str, parallel: usize, only_case: Option<u64>, props: &[String], memcheck: bool, rep: &mut Report) {
     let dir = PathBuf::from(format!("/dev/shm/tv-e3-{}", std::process::id()));
     std::fs::create_dir_all(&dir).unwrap();
     let ids: Vec<u64> = match only_case {
         Some(c) => vec![c],
         None => (0..cases).map(|i| 7_000_000 + shard + i * nshards).collect(),
     };
-    let results: std::sync::Mutex<Vec<(u64, Case, RemoteStats)>> = std::sync::Mutex::new(Vec::new());
+    let wrapper: Vec<String> = if memcheck { ["valgrind", "-q", "--error-exitcode=97", "--num-callers=14", "--track-origins=no"].iter().map(|s| s.to_string()).collect() } else { Vec::new() };
+    let results: std::sync::Mutex<Vec<(u64, Case, RemoteStats, String)>> = std::sync::Mutex::new(Vec::new());
     let next = std::sync::atomic::AtomicUsize::new(0);
     std::thread::scope(|sc| {
         for _ in 0..parallel.max(1).min(ids.len().max(1)) {
@@ -150,14 +162,18 @@ pub fn run(seed: u64, shard: u64, nshards: u64, cases: u64, bias: &str, parallel
                 let mut case = Case::new(seed, id, &b, &dir);
                 // shorter histories than E1: every step costs real round trips
                 let _ = &mut case;
-                let stats = run_case_remote(&mut case, &dir, false);
-                results.lock().unwrap().push((id, case, stats));
+                if memcheck {
+                    // a memory checker slows teosd down ~25x: short histories
+                    case.max_steps = case.max_steps.min(40);
+                }
+                let (stats, output) = run_case_remote_wrapped(&mut case, &dir, false, &wrapper);
+                results.lock().unwrap().push((id, case, stats, output));
             });
         }
     });
     let mut results = results.into_inner().unwrap();
     results.sort_by_key(|r| r.0);
-    for (id, case, stats) in results {
+    for (id, case, stats, output) in results {
         if let Some(why) = &stats.inconclusive {
             for p in props {
                 let r = rep.p(p);
@@ -168,6 +184,18 @@ pub fn run(seed: u64, shard: u64, nshards: u64, cases: u64, bias: &str, parallel
             continue;
         }
         crate::e1::report_case(rep, &case, id, seed, "e3");
+        if memcheck {
+            // valgrind -q prints only errors, each block starting with "==pid== <Kind>"
+            let errs: Vec<&str> = output.lines().filter(|l| l.starts_with("==") && (l.contains("Invalid ") || l.contains("uninitialised") || l.contains("Mismatched") || l.contains("overlap") || l.contains("Process terminating"))).collect();
+            let r = rep.p("C11");
+            r.count("e3_memcheck_histories", 1);
+            r.count("e3_memcheck_teosd_processes", stats.sessions);
+            if let Some(first) = errs.first() {
+                let kind: String = first.splitn(3, "== ").last().unwrap_or("").split_whitespace().take(3).collect::<Vec<_>>().join("-");
+                let at = output.lines().skip_while(|l| l != first).take(12).collect::<Vec<_>>().join(" | ");
+                r.violation(format!("C11:memcheck:{kind}"), format!("e3 history {id}: valgrind memcheck reported {} error lines on teosd; first: {at}", errs.len()), case.replay_json("e3", seed));
+            }
+        }
         for p in props {
             let r = rep.p(p);
             r.count("e3_histories", 1);
